@@ -440,11 +440,20 @@ func solve(o *Obligation, timeout time.Duration, portfolio []string) {
 	}
 	ctx, cancel := context.WithCancel(context.Background())
 	ch := make(chan res, len(racers))
-	for _, rc := range racers {
-		go func(rc racer) {
+	for i, rc := range racers {
+		go func(i int, rc racer) {
+			if i > 0 {
+				// most obligations are decided by the first racer within milliseconds: give it a head start
+				select {
+				case <-ctx.Done():
+					ch <- res{rc.lvl, rc.solver, "cancelled", ""}
+					return
+				case <-time.After(250 * time.Millisecond):
+				}
+			}
 			r, out, _ := runSolverCtx(ctx, rc.solver, files[rc.lvl-1], timeout)
 			ch <- res{rc.lvl, rc.solver, r, out}
-		}(rc)
+		}(i, rc)
 	}
 	var l2 res
 	anySat := false
